@@ -36,6 +36,11 @@ def digest(text):
 def explore(history, depth, results_fd, only=None):
     from mc import c10_ops
 
+    if os.environ.get("VERIF_COV"):
+        from mc import cov
+
+        cov.start()
+
     for name in c10_ops.OPS:
         if only is not None and name != only:
             continue
@@ -53,6 +58,10 @@ def explore(history, depth, results_fd, only=None):
             except BaseException:
                 code = 3
             finally:
+                if os.environ.get("VERIF_COV") and len(history) == 0:
+                    from mc import cov
+
+                    cov.dump()
                 os._exit(code)
         else:
             os.waitpid(pid, 0)
